@@ -47,7 +47,7 @@ ASSUMPTIONS = ["pre-emption granularity is one bytecode instruction of router.py
 EXPECTED_PROBES = ["two-threads-in-get-sequence-number", "cbf-buffered", "cbf-expiry-raced-cancel", "cbf-cancelled-before-expiry",
                    "cbf-expired-and-sent", "ls-reply-raced-retransmit", "ls-giveup", "ls-flushed-after-reply", "gnss-raced-origination",
                    "lock-contended", "preemption-inside-lock-free-region", "timer-started-while-actors-running",
-                   "strategy:random", "strategy:pct", "strategy:one"]
+                   "strategy:random", "strategy:pct", "strategy:one", "strategy:sync-only"]
 
 T0_US = 1_767_225_600_000_000
 
@@ -248,7 +248,25 @@ def gen_plan(run_seed: int, tier: str) -> dict:
             op = dict(op)
             op["th"] = th
             ops.append(op)
-    sched = S.draw_strategy(r)
+    # minimal pair patterns (own PRNG stream): two or three operations racing on one piece of state, so that the seeded schedules
+    # concentrate on the few hundred instructions where the race can happen
+    r2 = random.Random(run_seed ^ 0x15BA1B)
+    if r2.random() < 0.12:
+        pat = r2.choice(["ls-req-vs-reply", "ls-req-vs-reply", "ls-two-reqs-vs-reply", "ls-reply-vs-reply", "ls-req-vs-shb"])
+        pre = [rx("shb", pkt_shb(KNOWN))] if r2.random() < 0.5 else []
+        pre.append(req("guc", U1))                               # lookup for U1 pending, one request buffered
+        if pat == "ls-req-vs-reply":
+            ops = [dict(req("guc", U1), th=0), dict(rx("lsrep", pkt_lsrep(U1)), th=1)]
+        elif pat == "ls-two-reqs-vs-reply":
+            ops = [dict(req("guc", U1), th=0), dict(req("guc", U1), th=0), dict(rx("lsrep", pkt_lsrep(U1)), th=1)]
+        elif pat == "ls-reply-vs-reply":
+            ops = [dict(rx("lsrep", pkt_lsrep(U1)), th=0), dict(rx("lsrep", pkt_lsrep(U1)), th=1), dict(req("guc", U1), th=2)]
+        else:
+            ops = [dict(req("guc", U1), th=0), dict(rx("shb", pkt_shb(U1)), th=1)]
+        if r2.random() < 0.3:
+            ops.append(dict(req("guc", U1), th=max(o["th"] for o in ops) + 1))
+        cfg["focus"] = "pair:" + pat
+    sched = S.sync_only_variant(run_seed, S.draw_strategy(r), focus_names=("_ls_lock", "_cbf_lock", "sequence_number_lock", "ego_position_vector_lock", "loc_t_lock"))
     return {"engine": ENGINE, "property": ID, "config": cfg, "pre": pre, "ops": ops, "sched": sched, "sched_seed": r.getrandbits(32)}
 
 
@@ -679,7 +697,7 @@ class _Run:
         # ---- generic probes
         if sc.lock_contended:
             self.probe("lock-contended", sc.lock_contended)
-        self.probe("strategy:" + sc.cfg.get("strategy", "?"))
+        self.probe("strategy:" + ("sync-only" if sc.cfg.get("sync_only") else sc.cfg.get("strategy", "?")))
         in_sn = set()
         for (st, frm, to, reason, where, _sn) in sc.switch_log:
             if reason == "preempt" and where.rsplit(":", 1)[0].endswith("get_sequence_number"):
